@@ -543,7 +543,7 @@ def rand_invalid(d: T.Dict[str, T.Any], rnd: random.Random) -> T.Dict[str, T.Any
 
 
 def api_trace(j: int, seed: int) -> T.Dict[str, T.Any]:
-    from mesonbuild import options as mo, cmdline as mcmd
+    from mesonbuild import options as mo, cmdline as mcmd, mlog
     from mesonbuild.mesonlib import MesonException
     OK = mo.OptionKey
     rnd = random.Random(seed * 1000003 + j)
@@ -711,6 +711,40 @@ def api_trace(j: int, seed: int) -> T.Dict[str, T.Any]:
                 return R('str', 0, ['plain' if cur != 'plain' else 'release'])
 
             what = rnd.random()
+            # the option file of the top-level project was edited (range / choices of one option) and is read again
+            upd = [kd for kd in tk if kd in ('integer', 'combo', 'array') and not ('p' + kd in subdecl and subdecl['p' + kd][2])]
+            if what < 0.12 and upd:
+                kind = rnd.choice(upd)
+                n = 'p' + kind
+                old = decls[(n, '')]
+                nd = dict(old)
+                if kind == 'integer':
+                    how = rnd.choice(['min', 'max', 'both'])
+                    lo, hi = old['lo'], old['hi']
+                    if hi - lo < 4:
+                        lo, hi = API_KINDS['integer']['lo'], API_KINDS['integer']['hi']     # widen again
+                    else:
+                        lo = lo + rnd.randint(1, (hi - lo) // 2) if how in ('min', 'both') else lo
+                        hi = hi - rnd.randint(1, max(1, (hi - lo) // 2)) if how in ('max', 'both') else hi
+                    nd['lo'], nd['hi'] = lo, hi
+                else:
+                    full = API_KINDS[kind]['choices']
+                    cur = list(old['choices'])
+                    victim = rnd.choice(cur)
+                    nd['choices'] = [c for c in cur if c != victim] if len(cur) > 2 and rnd.random() < 0.7 else list(full)
+                df = rand_valid(nd, rnd)
+                proj = {}
+                for kd in tk:
+                    nm = 'p' + kd
+                    dd = nd if nm == n else decls[(nm, '')]
+                    dfl = df if nm == n else rand_valid(dd, rnd)
+                    proj[OK(nm, '')] = make_option(mo, nm, {'d': dd, 'def': dfl, 'yield': False})
+                decls[(n, '')] = nd
+                def do_update() -> None:
+                    with mlog.no_logging():        # "old value no longer valid" warnings are expected here
+                        store.update_project_options(proj, '')
+                event('update_options', do_update, k=K(n, ''), d=nd, **{'def': df})
+                continue
             if what < 0.35:
                 n, s = rnd.choice(keys)
                 r = value_for(n, s, False) if rnd.random() < 0.7 else rand_invalid(decl_of(n, s), rnd)
